@@ -27,6 +27,7 @@ unchanged.
 """
 import copy
 import pickle
+import random
 import warnings
 from datetime import timedelta
 
@@ -903,7 +904,49 @@ def build_pool(ctx, rng, kind, a):
                 pool.append(('free', 'retyped-keyvalues-2', r2))
     except (TypeError, ValueError):
         ctx.outcome('retype-not-constructible')
+    # names with characters whose lower(), upper() and casefold() forms
+    # disagree: free objects, and their documented-equal case variants
+    try:
+        f1 = rebuild(a, FoldAlike(rng))
+        if FP(f1) != fa:
+            pool.append(('free', 'fold-alike-names', f1))
+            f2 = rebuild(f1, Equiv(rng, True, False, False))
+            if FP(f2) != FP(f1):
+                pool.append(('free', 'fold-alike-names-recased', f2))
+            ctx.count('pool.fold-alike-names')
+    except (TypeError, ValueError):
+        ctx.outcome('fold-alike-not-constructible')
     return pool
+
+
+FOLD_ALIKE = [('ss', '\xdf'), ('SS', '\u1e9e'), ('s', '\u017f'),
+              ('S', '\u017f'), ('k', '\u212a'), ('K', '\u212a'),
+              ('fi', '\ufb01'), ('st', '\ufb06'), ('ff', '\ufb00'),
+              ('\u03c3', '\u03c2'), ('i', '\u0130'), ('I', '\u0131'),
+              ('n', '\u0149'), ('j', '\u01f0'), ('a', '\u1e9a')]
+
+
+class FoldAlike(equiv.Xform):
+    """Names in which characters are replaced by characters that lower(),
+    upper() and casefold() relate to them in different ways (long s, sharp
+    s, Kelvin sign, ligatures, final sigma, dotted/dotless i).  Whether such
+    names are "the same name in another lexical case" is not stated; the
+    objects are 'free': only the laws are demanded of them."""
+
+    def __init__(self, rng):
+        self.rng = rng
+
+    def name(self, s):
+        if s is None:
+            return s
+        rng = self.rng
+        for _ in range(rng.choice([1, 1, 2, 3])):
+            old, new = rng.choice(FOLD_ALIKE)
+            if old in s:
+                pos = rng.choice([i for i in range(len(s))
+                                  if s.startswith(old, i)])
+                s = s[:pos] + new + s[pos + len(old):]
+        return s
 
 
 class Retype(equiv.Xform):
@@ -1383,6 +1426,108 @@ def attr_of_diff(dtext):
     return '/'.join(parts[-2:]) if parts else '?'
 
 
+def all_paths(obj, depth=0):
+    """Instance paths anywhere in obj (root, .path, reference values and
+    reference keys, embedded objects)."""
+    out = []
+    if isinstance(obj, CIMInstanceName):
+        out.append(obj)
+    if depth < 4:
+        for ch in nested_objects(obj):
+            out += all_paths(ch, depth + 1)
+    return out
+
+
+def change_in_place(rng, obj):
+    """One to three documented in-place changes of obj; -> labels.  Uses rng
+    only, so that two structurally identical objects get the same changes."""
+    labs = []
+    for _ in range(rng.choice([1, 1, 2, 3])):
+        paths = all_paths(obj)
+        if paths and rng.random() < 0.6:
+            path = rng.choice(paths)
+            steps = kb_steps(rng, path, 'path')
+            lab, thunk = rng.choice(steps)
+            if lab.endswith('keybindings[set]') and rng.random() < 0.5:
+                # through the dictionary, not through the path
+                k = rng.choice(list(path.keybindings.keys()))
+                path.keybindings[k] = 'set through .keybindings'
+                lab = 'path.keybindings[dict-set]'
+            elif lab.endswith('keybindings[update]') and rng.random() < 0.5:
+                path.keybindings.update({'UpdKey2': Uint8(1)})
+                lab = 'path.keybindings[dict-update]'
+            else:
+                thunk()
+            labs.append(lab)
+        else:
+            lab = mutate(rng, obj, 0)
+            if lab is not None:
+                labs.append(lab)
+    return labs
+
+
+def check_hash_after_change(ctx, rng, kind, a, detail):
+    """a == b implies hash(a) == hash(b) also for an object that was hashed
+    (used in a set or as a dictionary key) before it was changed in place,
+    and for copies made of it in between."""
+    if kind in ('datetime', 'nocasedict'):
+        return
+    seed = rng.getrandbits(48)
+    hashed = rebuild(a, IDENT)
+    fresh = rebuild(a, IDENT)
+    for o in [hashed] + all_paths(hashed) + nested_objects(hashed):
+        try:
+            hash(o)
+        except CaseTimeout:
+            raise
+        except Exception:  # pylint: disable=broad-except
+            ctx.outcome('hash-before-change.raised')
+            return
+    via = rng.choice(['same-object', 'same-object', 'deepcopy', 'pickle',
+                      'copy()'])
+    try:
+        if via != 'same-object':
+            hashed = do_copy(via, hashed, rng)
+    except CaseTimeout:
+        raise
+    except Exception:  # pylint: disable=broad-except
+        ctx.outcome('hash-before-change.copy-raised')
+        return
+    try:
+        l1 = change_in_place(random.Random(seed), hashed)
+        l2 = change_in_place(random.Random(seed), fresh)
+    except CaseTimeout:
+        raise
+    except (ValueError, TypeError, KeyError):
+        ctx.outcome('hash-before-change.change-rejected')
+        return
+    if not l1 or l1 != l2 or FP(hashed) != FP(fresh):
+        ctx.outcome('hash-before-change.not-applicable')
+        return
+    ctx.evaluated()
+    ctx.count('check.hash-after-in-place-change')
+    ctx.cls('hash-after-change/' + via)
+    d = dict(detail, changes=l1, via=via, changed=short(repr(fresh), 1200))
+    eq = Res(lambda: hashed == fresh)
+    h1, h2 = Res(lambda: hash(hashed)), Res(lambda: hash(fresh))
+    if eq.exc is not None or h1.exc is not None or h2.exc is not None:
+        ctx.outcome('hash-after-change.raised')
+        return
+    K = kname(a)
+    if eq.val is not True:
+        ctx.violation('hash-after-change.%s.identical-objects-unequal' % K,
+                      'two %s objects with identical attributes (one was '
+                      'hashed before both were changed in the same way: %s) '
+                      'are not equal' % (K, l1), d)
+    elif h1.val != h2.val:
+        ctx.violation('eq-implies-hash.%s.stale-after-in-place-change.%s' % (
+            K, l1[-1].split('.', 1)[-1] if K == 'CIMInstanceName'
+            else 'nested'),
+            'a %s that was hashed, then changed in place (%s; taken through '
+            '%s), is equal to an object with the same attributes but has '
+            'another hash' % (K, l1, via), d)
+
+
 def check_copies(ctx, rng, kind, a, detail):
     # pylint: disable=too-many-branches,too-many-statements
     K = kname(a)
@@ -1492,6 +1637,7 @@ def run_case(ctx, i, rng):
                 ctx.extra['mutated_attributes'].get(lab, 0) + 1
     check_matrix(ctx, kind, pool, detail)
     check_copies(ctx, rng, kind, a, detail)
+    check_hash_after_change(ctx, rng, kind, a, detail)
     if ctx.evaluations % 53 == 1 or not ctx.samples:
         ctx.sample({'kind': kind, 'base': short(repr(a), 300),
                     'pool': ['%s/%s' % (p[0], p[1]) for p in pool]})
